@@ -177,7 +177,8 @@ Lemma exec_act_good t0 a s : Inv t0 s ->
   Inv t0 (fst (exec_act ticker a s)) /\ mono s (fst (exec_act ticker a s)) /\
   stopped_abort (snd (exec_act ticker a s)) (fst (exec_act ticker a s)).
 Proof.
-  intros H. destruct a as [thr n | thr c]; simpl.
+  intros H. destruct a as [thr n | thr c | thr c]; simpl.
+  3: { split; [apply inv_logt; [exact I | exact H]|]. split; [red; auto | exact I]. }
   - split; [apply inv_fire; congruence || assumption|]. split; [red; auto | exact I].
   - destruct (req_stop_good t0 c s H) as (H1 & M1 & S1).
     destruct (req_stop ticker c s) as (s', raised) eqn:E. simpl in *.
@@ -263,7 +264,8 @@ Proof.
     destruct (req_stop ticker c s) as (s', raised). simpl in *.
     destruct (t2_raise_good t0 c raised s' H1) as (H2 & R2).
     split; [exact H2 | red; intros; rewrite R2; auto]. }
-  destruct x as [| n | m c]; simpl.
+  destruct x as [| n | m c | c]; simpl.
+  4: { split; [apply inv_logt; [exact I | exact H] | red; auto]. }
   - split; [exact H | red; auto].
   - split; [apply inv_fire; congruence || assumption | red; auto].
   - simpl in J. destruct (running s && executing s) eqn:L; [|exact J].
@@ -616,3 +618,26 @@ Proof.
   split; [repeat split|]. split; [vm_compute; reflexivity|]. split; [vm_compute; reflexivity|].
   vm_compute. discriminate.
 Qed.
+
+(* ---- stop() on a registered child component (a manager that never ran) while the root runs: C08_idle_stop
+   applied to the child's own state; the root's loop state is untouched, nothing is raised into the handler *)
+Lemma child_stop_no_effect : forall tk thr c s,
+  exec_act tk (AStopChild thr c) s = (logt (TChildStop c) s, None).
+Proof.
+  intros tk thr c s. unfold exec_act. rewrite (idle_stop tk c never_run eq_refl). reflexivity.
+Qed.
+
+Lemma child_stop_second_thread_no_effect : forall lg tk tm c s,
+  do_xact lg tk tm (XStopChild c) s = (logt (TChildStop c) s, false).
+Proof.
+  intros lg tk tm c s. unfold do_xact. rewrite (idle_stop tk c never_run eq_refl). reflexivity.
+Qed.
+
+Lemma child_stop_example :
+  option_map (fun r => (dispK (trace (fst r)), snd r))
+    (run false false (prog_of [(KStarted, [BPlain [AFire false 0] RRet]);
+                               (KUser 0, [BPlain [AStopChild false (Some 4%Z); AFire false 1] RRet]);
+                               (KUser 1, [BPlain [AStopChild true None; AStop false (Some 6%Z)] RRet])])
+         3 50 (init [] []))
+  = Some ([KStarted; KGE; KUser 0; KGE; KUser 1; KGE; KStopped], Some 6%Z).
+Proof. vm_compute. reflexivity. Qed.
